@@ -28,7 +28,9 @@ func (g *luaGen) hit(p string)      { g.hits[p]++ }
 func (g *luaGen) name() string      { return g.names[g.r.Intn(len(g.names))] }
 
 var genNumerals = []string{"0", "1", "42", "007", "3.14", "5.", ".5", "1e10", "2E-3", "1.5e+3", "0x10", "0XfF", "0x.8", "0xA.8p1", "0x1p-2", "0x8P+3",
-	"9223372036854775807", "9223372036854775808", "0xffffffffffffffffff", "12LL", "7ull", "0x1FLL", "3ULL", "1e308", "100ll"}
+	"9223372036854775807", "9223372036854775808", "0xffffffffffffffffff", "12LL", "7ull", "0x1FLL", "3ULL", "1e308", "100ll",
+	// well-formed numerals whose value overflows float64: valid Lua (inf)
+	"1e999", "9e999", "1E400", "123456789e400", "0.1e1000"}
 var genStrings = []string{`"s"`, `'q'`, `""`, `"a b"`, `"e\n\t\\"`, `'it\'s'`, `"\65\066\x41"`, `"\z   x"`, `"\u{48}\u{7FFFFFFF}"`, `"中文"`, `"tab\ttab"`,
 	"[[long]]", "[==[x]]y]==]", "[[\nnl]]", "[=[a\nb]=]", `"\"q\""`, "'\\\nline'",
 	// every line-break convention inside long brackets and after a backslash: bare CR, CRLF, LFCR
